@@ -59,6 +59,17 @@ func verifyFuncs(P *Prog, fns []*ssa.Function, opt solveOpts, par int) []*fnResu
 				}()
 				genMu.Lock()
 				ct := P.cs.Funcs[fn.String()]
+				if ct == nil && len(opt.sweepFlags) > 0 {
+					// zero-annotation sweep: a function without a contract gets the property's sweep flags only
+					pk := ""
+					if fn.Pkg != nil {
+						pk = fn.Pkg.Pkg.Path()
+					}
+					ct = &FuncContract{Key: shortName(fn.String()), PkgPath: pk, Flags: map[string]bool{}, Loops: map[int]*LoopSpec{}, Synth: true}
+					for _, f := range opt.sweepFlags {
+						ct.Flags[f] = true
+					}
+				}
 				g := P.newGen(fn, ct)
 				r.g = g
 				func() {
